@@ -1,36 +1,8 @@
-mod engine_history;
-mod engine_http;
-mod engine_loader;
-mod engine_mcf;
-mod engine_pipeline;
-mod engine_search;
-mod engine_tour;
-mod engine_transition;
-mod gen_inst;
-mod inst;
-mod ojson;
-mod osched;
-mod refmodel;
-mod runner;
-mod sut;
-mod tape;
-
+use rsv::*;
 use runner::*;
 use std::time::{Duration, Instant};
 
-fn make_engine(prop: &str, tier: &str) -> Option<Box<dyn Engine>> {
-    match prop {
-        "C01" | "C02" | "C03" | "C04" | "C05" | "C06" | "C07" | "C16" => Some(Box::new(engine_pipeline::PipelineEngine::new(prop, tier))),
-        "C17" => Some(Box::new(engine_loader::LoaderEngine::new(tier))),
-        "C12" => Some(Box::new(engine_tour::TourEngine::new(tier))),
-        "C18" => Some(Box::new(engine_http::HttpEngine::new(tier))),
-        "C08" => Some(Box::new(engine_search::SearchEngine::new(tier))),
-        "C14" => Some(Box::new(engine_mcf::McfEngine::new(tier))),
-        "C15" => Some(Box::new(engine_transition::TransitionEngine::new(tier))),
-        "C09" | "C10" | "C11" | "C13" => Some(Box::new(engine_history::HistoryEngine::new(prop, tier))),
-        _ => None,
-    }
-}
+use rsv::fuzz_support::make_engine;
 
 /// (cases, workers, watchdog seconds)
 fn budget(prop: &str, tier: &str) -> (u32, u32, u64) {
@@ -38,77 +10,77 @@ fn budget(prop: &str, tier: &str) -> (u32, u32, u64) {
     match prop {
         "C16" => {
             if thorough {
-                (12000, 14, 7200)
+                (40000, 14, 14400)
             } else {
                 (2002, 14, 900)
             }
         }
         "C01" | "C02" | "C03" | "C04" | "C05" | "C07" => {
             if thorough {
-                (8000, 14, 7200)
+                (30000, 14, 14400)
             } else {
                 (2002, 14, 900)
             }
         }
         "C06" => {
             if thorough {
-                (12000, 14, 7200)
+                (40000, 14, 14400)
             } else {
                 (2002, 14, 900)
             }
         }
         "C09" | "C10" | "C13" => {
             if thorough {
-                (60000, 14, 7200)
+                (400000, 14, 14400)
             } else {
                 (30030, 14, 900)
             }
         }
         "C11" => {
             if thorough {
-                (4000, 14, 7200)
+                (20000, 14, 14400)
             } else {
                 (4004, 14, 900)
             }
         }
         "C15" => {
             if thorough {
-                (150000, 14, 7200)
+                (500000, 14, 14400)
             } else {
                 (30030, 14, 900)
             }
         }
         "C08" => {
             if thorough {
-                (6000, 14, 7200)
+                (20000, 14, 14400)
             } else {
                 (3010, 14, 900)
             }
         }
         "C18" => {
             if thorough {
-                (600, 8, 7200)
+                (1500, 8, 14400)
             } else {
                 (128, 8, 900)
             }
         }
         "C14" => {
             if thorough {
-                (40000, 14, 7200)
+                (200000, 14, 14400)
             } else {
                 (20020, 14, 900)
             }
         }
         "C12" => {
             if thorough {
-                (8000, 14, 7200)
+                (20000, 14, 14400)
             } else {
                 (3003, 14, 900)
             }
         }
         "C17" => {
             if thorough {
-                (100000, 14, 7200)
+                (300000, 14, 14400)
             } else {
                 (20020, 14, 900)
             }
@@ -231,6 +203,47 @@ fn main() {
                     eprintln!("   -> {} at {}: dist {} time {}", net.node(m).id(), net.locations().get_id(net.node(m).start_location()).unwrap(), net.dead_head_distance_between(n, m), net.dead_head_time_between(n, m));
                 }
             }
+            0
+        }
+        "gen-corpus" => {
+            // gen-corpus <prop> <dir> <n> <seed>: n library-generated tapes as libFuzzer seed inputs
+            use proptest::strategy::{Strategy, ValueTree};
+            use proptest::test_runner::{Config, RngAlgorithm, TestRng, TestRunner};
+            let prop = &args[2];
+            let dir = std::path::PathBuf::from(&args[3]);
+            let n: usize = args[4].parse().unwrap();
+            let seed: u64 = args.get(5).and_then(|s| s.parse().ok()).unwrap_or(1);
+            let engine = make_engine(prop, "quick").expect("engine");
+            let specs = engine.specs();
+            let strat = tape::tape_strategy(&specs);
+            let mut runner = TestRunner::new_with_rng(Config::default(), TestRng::from_seed(RngAlgorithm::ChaCha, &tape::expand_seed(seed, prop, 999)));
+            std::fs::create_dir_all(&dir).ok();
+            for i in 0..n {
+                let t = strat.new_tree(&mut runner).unwrap().current();
+                std::fs::write(dir.join(format!("seed_{:03}", i)), t.to_bytes(&specs)).ok();
+            }
+            0
+        }
+        "fuzz-note" => {
+            // fuzz-note <prop> <json>: merge the libFuzzer campaign facts into the evidence file
+            let prop = &args[2];
+            let p = runner::verif_root().join("evidence").join(format!("{}.json", prop));
+            if let Ok(s) = std::fs::read_to_string(&p) {
+                if let Ok(mut v) = serde_json::from_str::<serde_json::Value>(&s) {
+                    v["coverage"]["libfuzzer"] = serde_json::from_str(&args[3]).unwrap_or(serde_json::Value::Null);
+                    runner::write_json(&p, &v);
+                }
+            }
+            0
+        }
+        "fuzz-artifact" => {
+            // fuzz-artifact <prop> <artifact file> <out.json>: libFuzzer input -> replay file
+            let prop = &args[2];
+            let data = std::fs::read(&args[3]).expect("artifact");
+            let engine = make_engine(prop, "quick").expect("engine");
+            let tape = tape::Tape::from_bytes(&engine.specs(), &data);
+            let v = serde_json::json!({"property": prop, "engine": engine.name(), "tier": "quick", "seed": 0, "tape": tape.to_json(), "message": "found by libFuzzer", "source": args[3]});
+            runner::write_json(std::path::Path::new(&args[4]), &v);
             0
         }
         "replay" => {
